@@ -165,8 +165,10 @@ def internal_server_error(req, *_):
 
         for i, line in enumerate(traceback):
             traceback_line = html_escape(line)
-            res.write('<span class="line%s">%s</span>\n' %
-                      (i % 2, traceback_line))
+            # exception message could contain not encodable characters
+            res.write(('<span class="line%s">%s</span>\n' %
+                       (i % 2, traceback_line)
+                       ).encode('utf-8', 'backslashreplace'))
 
         res.write(
             "  </pre>\n"
